@@ -781,20 +781,24 @@ func agreeGo(ta, tb *gt, a, b reflect.Value, path string) string {
 // otherKindReached: converting v : from into `to` meets, at the top or at an element, key or
 // matched field that v holds, two kinds of different classes (mirrors Conv.other_kind_reached;
 // the run file checks that both agree on every case)
-func otherKindReached(to, from *gt, v reflect.Value) bool {
+//
+// skipMapElems: do not look inside map elements — the pinned convertMap never converts them, so
+// only a mismatch found with skipMapElems is something the known defect does not explain.
+func otherKindReached(to, from *gt, v reflect.Value, skipMapElems bool) bool {
 	if to.class() != from.class() {
 		return true
 	}
 	switch to.k {
 	case gSlice:
 		for i := 0; i < v.Len(); i++ {
-			if otherKindReached(to.elem, from.elem, v.Index(i)) {
+			if otherKindReached(to.elem, from.elem, v.Index(i), skipMapElems) {
 				return true
 			}
 		}
 	case gMap:
 		for _, k := range v.MapKeys() {
-			if otherKindReached(to.key, from.key, k) || otherKindReached(to.elem, from.elem, v.MapIndex(k)) {
+			if otherKindReached(to.key, from.key, k, skipMapElems) ||
+				(!skipMapElems && otherKindReached(to.elem, from.elem, v.MapIndex(k), skipMapElems)) {
 				return true
 			}
 		}
@@ -802,7 +806,7 @@ func otherKindReached(to, from *gt, v reflect.Value) bool {
 		for _, f := range to.fields {
 			for j, g := range from.fields {
 				if strings.EqualFold(f.name, g.name) {
-					if otherKindReached(f.t, g.t, v.Field(j)) {
+					if otherKindReached(f.t, g.t, v.Field(j), skipMapElems) {
 						return true
 					}
 					break
@@ -888,7 +892,7 @@ func runC20(res *hx.Result, rng *hx.Rng, tier string, outdir string) {
 		canon := coqVal(t1, src)
 		desc := fmt.Sprintf("%s: %s -> %s, value %s", kind, t1, t2, canon)
 		comp := compatGo(t1, t2)
-		other := otherKindReached(t2, t1, src)
+		other := otherKindReached(t2, t1, src, false)
 		known := defect && hasNonEmptyMap(t1, src)
 		fail := func(oracle, detail string) {
 			if known {
@@ -929,6 +933,9 @@ func runC20(res *hx.Result, rng *hx.Rng, tier string, outdir string) {
 			}
 		} else if t1.class() != t2.class() && o.err == nil {
 			res.Fail("other-kind-accepted", fmt.Sprintf("%s: kinds of different classes were converted, result %s", desc, coqVal(t2, o.dst)))
+		} else if other && o.err == nil && otherKindReached(t2, t1, src, true) {
+			// reached outside map elements: the known convertMap defect cannot be the reason
+			res.Fail("other-kind-accepted", fmt.Sprintf("%s: a key, element or field of a kind of another class was converted, result %s", desc, coqVal(t2, o.dst)))
 		} else if other && o.err == nil {
 			fail("other-kind-accepted", fmt.Sprintf("%s: an element, key or field of a kind of another class was converted, result %s", desc, coqVal(t2, o.dst)))
 		}
